@@ -1278,6 +1278,25 @@ func rulePanic(sc panicScope) ruleFn {
 					} else {
 						r.Bad("R7.P2", name, construct, r.P.pos(x.Pos()), "single-result type assertion panics when the dynamic type differs; "+r.ctxNote(fn))
 					}
+				case *ssa.Lookup, *ssa.MapUpdate:
+					// P7 (hash): a map keyed by an interface type hashes the dynamic value of the
+					// key — a JSON object or list as key panics with `hash of unhashable type`,
+					// the same hazard as == on two interfaces
+					var m, key ssa.Value
+					if lk, isLk := x.(*ssa.Lookup); isLk {
+						m, key = lk.X, lk.Index
+					} else {
+						mu := x.(*ssa.MapUpdate)
+						m, key = mu.Map, mu.Key
+					}
+					if why, risky := ifaceKeyRisk(m, key, ins.Block()); risky {
+						construct := "key " + shortType(key.Type()) + " of " + shortType(m.Type())
+						if reason, ok := useTable(r, cmpTable, name+"/"+construct); ok {
+							r.Tabled("R7.P7", name, construct, r.P.pos(ins.Pos()), "cmp", reason)
+						} else {
+							r.Bad("R7.P7", name, construct, r.P.pos(ins.Pos()), "a map with an interface-typed key is read or written with a key whose dynamic type is not known to be hashable ("+why+"): if the key holds a map or a slice (a JSON object or list) Go panics with `hash of unhashable type`; "+r.ctxNote(fn))
+						}
+					}
 				case *ssa.Panic:
 					if c, ok := unwrap(x.X).(*ssa.Const); ok && c.Value != nil && strings.HasPrefix(c.Value.ExactString(), `"blocking select`) {
 						continue
@@ -2640,6 +2659,38 @@ func sameCount(a, b ssa.Value) bool {
 	}
 	la, lb := lenArg(a), lenArg(b)
 	return la != nil && lb != nil && (la == lb || sameValue(la, lb))
+}
+
+// ifaceKeyRisk: m is a map whose key type is an interface and the key used at block b is not
+// known to hold a hashable dynamic type (a constant, a conversion from a comparable type, a
+// package-level sentinel, or a value certified by a dominating type switch).
+func ifaceKeyRisk(m, key ssa.Value, b *ssa.BasicBlock) (string, bool) {
+	mt, ok := m.Type().Underlying().(*types.Map)
+	if !ok {
+		return "", false
+	}
+	if _, isParam := mt.Key().(*types.TypeParam); isParam {
+		return "", false
+	}
+	if _, isIface := mt.Key().Underlying().(*types.Interface); !isIface {
+		return "", false
+	}
+	switch y := key.(type) {
+	case *ssa.Const:
+		return "", false
+	case *ssa.MakeInterface:
+		if types.Comparable(y.X.Type()) {
+			return "", false
+		}
+	case *ssa.UnOp:
+		if _, isGlobal := y.X.(*ssa.Global); isGlobal && y.Op == token.MUL {
+			return "", false
+		}
+	}
+	if dynComparableAt(key, b) {
+		return "", false
+	}
+	return "the key is not a constant, a conversion from a comparable type or a value a dominating type switch has narrowed to comparable types", true
 }
 
 // dynComparableAt: every path from the entry of the function to block b takes the success
